@@ -92,6 +92,9 @@ impl NormalFormQuery {
                 && limit < partition_range.len() / 2
                 && self.order_by.len() == 1
                 && !ranking.is_constant()
+                // top_n on fused nullable keys is wrong for descending strings and not
+                // implemented for narrow nullable integers: nullable keys take the sort path
+                && !ranking.is_nullable()
             {
                 let ranking = if ranking.is_nullable() {
                     // TODO: not implemented for all types (e.g. NullableU8). Need to upcast to u64, add corresponding fused types, or add nullable top_n
